@@ -14,6 +14,10 @@ programmed hashes equals the desired hashes for clean chains, ...) is proved ind
 API change, refresh, restart or failed Apply); nobody edits the table between that read and the write; hash
 soundness (`HashSound`: a kernel rule carrying a desired rule's hash IS that rule); hook rules are only put into
 chains outside Felix's name space.
+"Desired" is the code's notion (present + positive reference count); that the reference counts equal reachability
+from hooks and force-programmed chains is NOT proved in Lean (it was false before /repo e60ddc3, see
+`unforced_update_releases_children`); the harness checks it on the real code after every operation (oracle
+`refcount-not-reachability`) and checks reachability of every Felix chain left in the table after every Apply.
 Convergence for hook rules in shared chains is proved only for one iteration and only when the hooks are out of
 sync (`apply_converges_hooks_partial`): NOT lifted over the retry loop/histories.  The nftables backend is not
 modelled.
@@ -217,5 +221,62 @@ example : HashSound exT [("cali-a", [KRule.felix "h1" "--jump DROP", KRule.felix
     have hg : List.lookup c exT.chains = none := by rw [hc]; simp only [List.lookup, hb]
     simp only [T.desiredChain, Map.get, hg] at hd
     split at hd <;> simp at hd
+
+/-! ### Regression: taking the force flag off an otherwise unreferenced chain releases everything (fixed in /repo e60ddc3)
+
+Before the repair `UpdateChain` took references for the NEW rules while the chain was still referenced by its own
+force flag and then dropped that self-reference, whose cascade released the OLD rules' references: the chains named by
+the new rules kept a phantom reference.  With the repaired order nothing is left behind, on the same history. -/
+def exLeak : T :=
+  ((T.new exP true).updateChain "cali-d" ⟨[], true⟩).updateChain "cali-d" ⟨[⟨"h", "--jump cali-fw-x", some "cali-fw-x"⟩], false⟩
+
+theorem unforced_update_releases_children :
+    exLeak.refd "cali-d" = false ∧ exLeak.refd "cali-fw-x" = false ∧
+    (exLeak.updateChain "cali-fw-x" ⟨[⟨"h2", "--jump DROP", none⟩], false⟩).desiredChain "cali-fw-x" = none := by decide
+
+/- ... and the whole replay corpus/C15/unforced-update-leak.ops on the model: after the Apply neither chain exists. -/
+def exLeakOps : List Op :=
+  [Op.chain "cali-d" ⟨[], true⟩, Op.apply [] [] none,
+   Op.chain "cali-d" ⟨[⟨"h", "--jump cali-fw-x", some "cali-fw-x"⟩], false⟩,
+   Op.chain "cali-fw-x" ⟨[⟨"h2", "--jump DROP", none⟩], false⟩, Op.apply [] [] none]
+#guard ((({ t := T.new exP true, K := kernelChains.map (fun c => (c, [])) } : W).run exLeakOps).K.get "cali-fw-x") == none
+#guard ((({ t := T.new exP true, K := kernelChains.map (fun c => (c, [])) } : W).run exLeakOps).K.get "cali-d") == none
+#guard ((({ t := T.new exP true, K := kernelChains.map (fun c => (c, [])) } : W).run (exLeakOps.take 2)).K.get "cali-d") == some []
+
+/-! ### refcount = reachability, checked exhaustively on the model for small universes (NOT a theorem)
+
+`refd` (positive reference count) is the code's notion of "wanted"; the property's notion is reachability from the
+hook rules and force-programmed chains through the rules of the chains Felix was given.  The two are compared here
+on the model for ALL sequences of up to 4 calls from a 27-call universe over three chains (every force flag, jumps
+one and two levels down, duplicates, removal, hook rules with and without jumps), and on the real code after every
+operation of every correspondence run (oracle `refcount-not-reachability`).  A kernel-checked proof for all
+histories is not attempted: it needs the exact counting invariant through the recursive incref/decref cascades
+together with acyclicity and a fuel bound. -/
+def T.reachB (t : T) : List String :=
+  let roots := (kernelChains.flatMap (fun c => refsOf ((t.ins.get c).getD []) ++ refsOf ((t.app.get c).getD []))) ++
+    (t.chains.filter (fun p => p.2.force)).map (·.1)
+  let step := fun (S : List String) => (S ++ S.flatMap (fun c => match t.chains.get c with | some ch => refsOf ch.rules | none => [])).eraseDups
+  step (step (step (step roots.eraseDups)))
+
+def T.refOK (t : T) (names : List String) : Bool :=
+  names.all (fun c => t.refd c == t.reachB.contains c) && kernelChains.all t.refd
+
+def jmp (c : String) : DRule := ⟨"h" ++ c, "--jump " ++ c, some c⟩
+def smallOps : List Op :=
+  ([true, false].flatMap (fun f =>
+    [[], [jmp "cali-b"], [jmp "cali-c"], [jmp "cali-b", jmp "cali-c"], [jmp "cali-b", jmp "cali-b"]].map (fun rs => Op.chain "cali-a" ⟨rs, f⟩) ++
+    [[], [jmp "cali-c"], [jmp "cali-c", jmp "cali-c"]].map (fun rs => Op.chain "cali-b" ⟨rs, f⟩) ++
+    [Op.chain "cali-c" ⟨[], f⟩])) ++
+  [Op.rmchain "cali-a", Op.rmchain "cali-b", Op.rmchain "cali-c"] ++
+  [[], [jmp "cali-a"], [jmp "cali-b"], [jmp "cali-a", jmp "cali-c"]].map (Op.ins "FORWARD") ++
+  [[], [jmp "cali-b"]].map (Op.app "FORWARD")
+
+/-- All states reachable by at most `n` calls satisfy `refOK` (depth-first, sharing prefixes). -/
+def allOK : Nat → W → Bool
+  | 0, w => w.t.refOK ["cali-a", "cali-b", "cali-c"]
+  | n + 1, w => w.t.refOK ["cali-a", "cali-b", "cali-c"] && smallOps.all (fun o => allOK n (w.stepOp o).1)
+
+#guard smallOps.length == 27
+#guard allOK 4 { t := T.new exP true, K := [] }
 
 end CalicoVerif.C15
